@@ -255,6 +255,9 @@ class ExecutionState:
         # Operations whose parent has completed
         self._parent_done: set[str] = set()
 
+        # CONTEXT operations whose completion (SUCCEED/FAIL) has been handed over
+        self._completed_contexts: set[str] = set()
+
         # Protects parent_to_children and parent_done
         self._parent_done_lock: Lock = Lock()
         self._replay_status: ReplayStatus = replay_status
@@ -445,6 +448,18 @@ class ExecutionState:
                 ):
                     self._mark_orphans(operation_update.operation_id)
 
+                # An operation first seen after its parent context completed (or was itself
+                # orphaned) is an orphan too: it was not known when the descendants were marked.
+                if (
+                    operation_update.parent_id
+                    and operation_update.operation_id not in self._parent_done
+                    and (
+                        operation_update.parent_id in self._parent_done
+                        or operation_update.parent_id in self._completed_contexts
+                    )
+                ):
+                    self._parent_done.add(operation_update.operation_id)
+
                 # Check if this operation's parent is done
                 if operation_update.operation_id in self._parent_done:
                     logger.debug(
@@ -458,6 +473,13 @@ class ExecutionState:
                         error_msg,
                         operation_id=operation_update.operation_id,
                     )
+
+                if (
+                    operation_update.operation_type == OperationType.CONTEXT
+                    and operation_update.action
+                    in {OperationAction.SUCCEED, OperationAction.FAIL}
+                ):
+                    self._completed_contexts.add(operation_update.operation_id)
 
         # Check if background checkpointing has failed
         if self._checkpointing_failed.is_set():
@@ -540,6 +562,16 @@ class ExecutionState:
         Args:
             context_id: The operation ID of the CONTEXT that has completed
         """
+        # Operations recorded by earlier invocations never passed through create_checkpoint in
+        # this one, so their parent links come from the loaded operations
+        with self._operations_lock:
+            recorded_children: dict[str, set[str]] = {}
+            for op in self.operations.values():
+                if op.parent_id:
+                    recorded_children.setdefault(op.parent_id, set()).add(
+                        op.operation_id
+                    )
+
         # Collect all descendants recursively using BFS
         all_descendants = set()
         # Start with root
@@ -557,6 +589,7 @@ class ExecutionState:
             # Add all direct children to processing queue
             direct_children = self._parent_to_children.get(current_id, set())
             to_process.update(direct_children)
+            to_process.update(recorded_children.get(current_id, set()))
 
         # Remove the root itself (we only want descendants)
         all_descendants.discard(context_id)
